@@ -105,7 +105,59 @@ def run(ctx):
                 groups.setdefault(keyf(c), []).append(c)
             combos = [x for g in groups.values() for x in rng.sample(g, min(len(g), 3))]
         ctx.coverage["combinations"] = len(combos)
-        for (alg, kn, ser, b64, placement, form) in combos:
+        # histories of registry construction: building registries with extra header parameters,
+        # relaxed checks or custom algorithm lists must not change any later default round trip
+        from joserfc.registry import HeaderParameter
+        from joserfc import jwe as _jwe
+        reg_hist = {"n": 0}
+
+        def registry_history():
+            i = reg_hist["n"]
+            reg_hist["n"] += 1
+            extra = [{"nonce": HeaderParameter("Nonce", "str", True)},
+                     {"url": HeaderParameter("URL", "url", True), "nonce": HeaderParameter("Nonce", "str", False)},
+                     {"iat": HeaderParameter("Issued at", "int", True)},
+                     {"x-flag": HeaderParameter("Flag", "bool", True), "x-list": HeaderParameter("List", "list[str]", False)}][i % 4]
+            made = [jws.JWSRegistry(header_registry=dict(extra)),
+                    jws.JWSRegistry(header_registry=dict(extra), algorithms=["HS256", "none"], strict_check_header=False),
+                    jws.JWSRegistry(strict_check_header=False),
+                    r97.JWSRegistry(header_registry=dict(extra)),
+                    r97.JWSRegistry(algorithms=["ES256"]),
+                    _jwe.JWERegistry(header_registry=dict(extra))]
+            # the custom registry itself works with its own parameters ...
+            name, hp = next(iter(extra.items()))
+            val = {"str": "n-1", "url": "https://a.example/x", "int": 7, "bool": True}[
+                {"nonce": "str", "url": "url", "iat": "int", "x-flag": "bool"}[name]]
+            hdr = {"alg": "HS256", name: val}
+            if "nonce" in extra and name != "nonce":
+                hdr["nonce"] = "n-2"
+            t = call(jws.serialize_compact, dict(hdr), b"custom", K["oct32"], None, made[0])
+            rec.take()
+            if t[0] != "ok":
+                bad({"kind": "custom-registry"}, "a registry with extra header parameter %r refuses its own header: %r" % (name, t[1]), {"fn": "registry-history", "extra": name})
+            else:
+                v = call(jws.deserialize_compact, t[1], K["oct32"], None, made[0])
+                rec.take()
+                if v[0] != "ok" or v[1].payload != b"custom":
+                    bad({"kind": "custom-registry"}, "round trip with a custom registry failed: %r" % (v[1],), {"fn": "registry-history", "extra": name})
+            # ... and a registry built afterwards (and the default one) does not know them
+            for fresh in (jws.JWSRegistry(), None):
+                t = call(jws.serialize_compact, {"alg": "HS256"}, b"plain", K["oct32"], None, fresh)
+                v = call(jws.deserialize_compact, t[1], K["oct32"], None, fresh) if t[0] == "ok" else t
+                u = call(jws.serialize_compact, dict(hdr), b"plain", K["oct32"], None, fresh)
+                rec.take()
+                note("registry-history")
+                if v[0] != "ok" or v[1].payload != b"plain":
+                    bad({"kind": "registry-history"}, "after constructing registries with extra header parameter %r a default round trip fails: %r" % (name, v[1]),
+                        {"fn": "registry-history", "extra": name})
+                if u[0] == "ok":
+                    bad({"kind": "registry-history-leak"}, "header parameter %r registered on ANOTHER registry instance is accepted by a fresh / the default registry" % name,
+                        {"fn": "registry-history", "extra": name})
+
+        registry_history()
+        for ci, (alg, kn, ser, b64, placement, form) in enumerate(combos):
+            if ci % 40 == 17:
+                registry_history()
             k = K[kn]
             pub = J.pubkey_of(k)
             o1, o2 = [K[n] for n in ("oct16", "p384", "ed448", "rsa") if K[n].key_type != k.key_type][:2]
@@ -283,300 +335,304 @@ def run(ctx):
                         if rr[0] != "ok" or rr[1].payload != pl:
                             bad({"kind": "detach-restore"}, "restoring the detached payload does not verify: %r" % (rr[1],), replay)
 
-        # ---- detached content on payloads CORRELATED with the other segments
-        # (the payload text occurs inside the header / signature segment, is empty, is the token itself)
-        def correlated_payloads(hs, ss, text, tok):
-            out = [("empty", b""), ("header-json", text), ("token-text", tok), ("header-segment-text", hs), ("signature-segment-text", ss)]
-            n3 = len(text) // 3
-            for j in range(1, n3 + 1):
-                out.append(("header-prefix-aligned", text[:3 * j]))
-            for i in range(1, n3):
-                out.append(("header-suffix-aligned", text[3 * i:]))
-                for j in (i + 1, i + 2, n3):
-                    if i < j <= n3:
-                        out.append(("header-infix-aligned", text[3 * i:3 * j]))
-            for j in (1, 2, 4, 5, len(text) - 1):
-                if 0 < j < len(text):
-                    out.append(("header-prefix-unaligned", text[:j]))
-            # every short slice of the header / signature segment text that is a canonical encoding
-            for name, seg in (("header", hs), ("signature", ss)):
-                for ln in (2, 3, 4, 6, 8):
-                    for i in range(0, max(0, len(seg) - ln + 1)):
-                        sl = seg[i:i + ln]
-                        try:
-                            raw = b64u_dec(sl)
-                        except Exception:
-                            continue
-                        if b64u(raw) == sl:
-                            out.append(("%s-slice" % name, raw))
-            seen, uniq = set(), []
-            for k_, v_ in out:
-                if v_ not in seen:
-                    seen.add(v_)
-                    uniq.append((k_, v_))
-            return uniq
+        try:
+            # ---- detached content on payloads CORRELATED with the other segments
+            # (the payload text occurs inside the header / signature segment, is empty, is the token itself)
+            def correlated_payloads(hs, ss, text, tok):
+                out = [("empty", b""), ("header-json", text), ("token-text", tok), ("header-segment-text", hs), ("signature-segment-text", ss)]
+                n3 = len(text) // 3
+                for j in range(1, n3 + 1):
+                    out.append(("header-prefix-aligned", text[:3 * j]))
+                for i in range(1, n3):
+                    out.append(("header-suffix-aligned", text[3 * i:]))
+                    for j in (i + 1, i + 2, n3):
+                        if i < j <= n3:
+                            out.append(("header-infix-aligned", text[3 * i:3 * j]))
+                for j in (1, 2, 4, 5, len(text) - 1):
+                    if 0 < j < len(text):
+                        out.append(("header-prefix-unaligned", text[:j]))
+                # every short slice of the header / signature segment text that is a canonical encoding
+                for name, seg in (("header", hs), ("signature", ss)):
+                    for ln in (2, 3, 4, 6, 8):
+                        for i in range(0, max(0, len(seg) - ln + 1)):
+                            sl = seg[i:i + ln]
+                            try:
+                                raw = b64u_dec(sl)
+                            except Exception:
+                                continue
+                            if b64u(raw) == sl:
+                                out.append(("%s-slice" % name, raw))
+                seen, uniq = set(), []
+                for k_, v_ in out:
+                    if v_ not in seen:
+                        seen.add(v_)
+                        uniq.append((k_, v_))
+                return uniq
 
-        det_budget = ctx.scale(260, 4000)
-        for alg, kn in (("HS256", "oct32"), ("HS512", "oct64"), ("ES256", "p256"), ("RS256", "rsa"), ("EdDSA", "ed25519")):
-            k = K[kn]
-            pub = J.pubkey_of(k)
-            for h in ({"alg": alg}, {"alg": alg, "typ": "JWT"}, {"alg": alg, "kid": kn, "cty": "a/b"}):
-                text = json.dumps(h, separators=(",", ":")).encode()
-                t0 = jws.serialize_compact(dict(h), b"seed", k, [alg]).encode()
-                hs0, _, ss0 = t0.split(b".")
-                cands = correlated_payloads(hs0, ss0, text, t0)
-                if len(cands) > det_budget // 15:
-                    keep = [c for c in cands if not c[0].endswith("-slice")]
-                    rest = [c for c in cands if c[0].endswith("-slice")]
-                    cands = keep + rng.sample(rest, max(0, min(len(rest), det_budget // 15 - len(keep))))
-                for kind, pl in cands:
-                    rec.take()
-                    tok = jws.serialize_compact(dict(h), pl, k, [alg]).encode()
-                    rec.take()
-                    hs, ps, ss = tok.split(b".")
-                    collide = "header" if (ps and ps in hs) else ("signature" if (ps and ps in ss) else "none")
-                    ctx.note_case(("detach-correlated", alg, json.dumps(h, sort_keys=True), pl))
-                    note("detach-correlated:%s:collides-with-%s" % (kind.split("-")[0], collide))
-                    rp = {"fn": "detach_content", "alg": alg, "key": kn, "header": h, "payload_hex": pl.hex(), "token": tok.decode(), "kind": kind}
-                    d = call(jws.detach_content, tok.decode())
-                    want = hs.decode() + ".." + ss.decode()
-                    if d[0] != "ok" or d[1].split(".") != [hs.decode(), "", ss.decode()] or d[1] != want:
-                        bad({"kind": "detach", "ser": "compact"}, "detach_content(%r...) = %r, expected header..signature %r (payload kind %s, its encoding occurs in the %s segment)" % (
-                            tok.decode()[:50], d[1], want, kind, collide), rp)
-                    add("JDetachCompact %s %s" % (c_hex(tok), J.c_res(d, lambda x: c_hex(x.encode()))),
-                        {"fn": "detach_compact", "what": "detach-correlated", "force": True, **rp})
-                    if d[0] == "ok":
-                        parts = d[1].split(".")
-                        if len(parts) == 3:
-                            restored = parts[0] + "." + b64u(pl).decode() + "." + parts[2]
-                            rr = call(jws.deserialize_compact, restored, pub, [alg])
-                            rec.take()
-                            if rr[0] != "ok" or rr[1].payload != pl:
-                                bad({"kind": "detach-restore", "ser": "compact"}, "restoring the detached payload (kind %s) does not verify: %r" % (kind, rr[1]), rp)
-                    # JSON forms: every other member untouched (deep compare), input object not altered
-                    if kind.endswith("-slice") and rng.random() < 0.7:
-                        continue
-                    for form in ("flat", "general"):
-                        m = {"protected": dict(h), "header": {"x5t": hs.decode()[:8]}}
-                        val = jws.serialize_json(m if form == "flat" else [m, {"protected": dict(h, typ="second")}], pl, k, [alg])
+            det_budget = ctx.scale(260, 4000)
+            for alg, kn in (("HS256", "oct32"), ("HS512", "oct64"), ("ES256", "p256"), ("RS256", "rsa"), ("EdDSA", "ed25519")):
+                k = K[kn]
+                pub = J.pubkey_of(k)
+                for h in ({"alg": alg}, {"alg": alg, "typ": "JWT"}, {"alg": alg, "kid": kn, "cty": "a/b"}):
+                    text = json.dumps(h, separators=(",", ":")).encode()
+                    t0 = jws.serialize_compact(dict(h), b"seed", k, [alg]).encode()
+                    hs0, _, ss0 = t0.split(b".")
+                    cands = correlated_payloads(hs0, ss0, text, t0)
+                    if len(cands) > det_budget // 15:
+                        keep = [c for c in cands if not c[0].endswith("-slice")]
+                        rest = [c for c in cands if c[0].endswith("-slice")]
+                        cands = keep + rng.sample(rest, max(0, min(len(rest), det_budget // 15 - len(keep))))
+                    for kind, pl in cands:
                         rec.take()
-                        before = copy.deepcopy(val)
-                        dj = call(jws.detach_content, val)
-                        expect = {x: v for x, v in before.items() if x != "payload"}
-                        if dj[0] != "ok" or dj[1] != expect or "payload" in dj[1]:
-                            bad({"kind": "detach", "ser": form}, "detach_content(JSON %s) = %r, expected %r" % (form, dj[1], expect), dict(rp, value=before))
-                        if val != before:
-                            bad({"kind": "detach-alters-input", "ser": form}, "detach_content altered its argument: %r" % (val,), dict(rp, value=before))
-                        if dj[0] == "ok" and isinstance(dj[1], dict):
-                            # no aliasing: mutating the result must not reach the input
-                            for sg in (dj[1].get("signatures") or [dj[1]]):
-                                if isinstance(sg.get("header"), dict):
-                                    sg["header"]["mutated"] = 1
-                            if val != before:
-                                bad({"kind": "detach-aliases-input", "ser": form}, "the result of detach_content shares objects with its argument", dict(rp, value=before))
-                            d2 = dict(expect, payload=b64u(pl).decode())
-                            rr = call(jws.deserialize_json, d2, pub, [alg])
+                        tok = jws.serialize_compact(dict(h), pl, k, [alg]).encode()
+                        rec.take()
+                        hs, ps, ss = tok.split(b".")
+                        collide = "header" if (ps and ps in hs) else ("signature" if (ps and ps in ss) else "none")
+                        ctx.note_case(("detach-correlated", alg, json.dumps(h, sort_keys=True), pl))
+                        note("detach-correlated:%s:collides-with-%s" % (kind.split("-")[0], collide))
+                        rp = {"fn": "detach_content", "alg": alg, "key": kn, "header": h, "payload_hex": pl.hex(), "token": tok.decode(), "kind": kind}
+                        d = call(jws.detach_content, tok.decode())
+                        want = hs.decode() + ".." + ss.decode()
+                        if d[0] != "ok" or d[1].split(".") != [hs.decode(), "", ss.decode()] or d[1] != want:
+                            bad({"kind": "detach", "ser": "compact"}, "detach_content(%r...) = %r, expected header..signature %r (payload kind %s, its encoding occurs in the %s segment)" % (
+                                tok.decode()[:50], d[1], want, kind, collide), rp)
+                        add("JDetachCompact %s %s" % (c_hex(tok), J.c_res(d, lambda x: c_hex(x.encode()))),
+                            {"fn": "detach_compact", "what": "detach-correlated", "force": True, **rp})
+                        if d[0] == "ok":
+                            parts = d[1].split(".")
+                            if len(parts) == 3:
+                                restored = parts[0] + "." + b64u(pl).decode() + "." + parts[2]
+                                rr = call(jws.deserialize_compact, restored, pub, [alg])
+                                rec.take()
+                                if rr[0] != "ok" or rr[1].payload != pl:
+                                    bad({"kind": "detach-restore", "ser": "compact"}, "restoring the detached payload (kind %s) does not verify: %r" % (kind, rr[1]), rp)
+                        # JSON forms: every other member untouched (deep compare), input object not altered
+                        if kind.endswith("-slice") and rng.random() < 0.7:
+                            continue
+                        for form in ("flat", "general"):
+                            m = {"protected": dict(h), "header": {"x5t": hs.decode()[:8]}}
+                            val = jws.serialize_json(m if form == "flat" else [m, {"protected": dict(h, typ="second")}], pl, k, [alg])
                             rec.take()
-                            if rr[0] != "ok" or rr[1].payload != pl:
-                                bad({"kind": "detach-restore", "ser": form}, "restoring the detached JSON payload does not verify: %r" % (rr[1],), rp)
-        # payload' = b64d of a slice of the signature of a first (deterministic HMAC) token, re-signed
-        for hs_alg, kn in (("HS256", "oct32"), ("HS384", "oct64")):
-            k = K[kn]
-            t0 = jws.serialize_compact({"alg": hs_alg}, b"first", k, [hs_alg])
-            ss0 = t0.split(".")[2]
-            for i in range(0, len(ss0) - 4, 4):
-                for ln in (4, 8, 12):
-                    pl = b64u_dec(ss0[i:i + ln].encode())
-                    tok = jws.serialize_compact({"alg": hs_alg}, pl, k, [hs_alg])
-                    rec.take()
-                    hs, ps, ss = tok.split(".")
-                    ctx.note_case(("detach-sig-slice", hs_alg, pl))
-                    note("detach-correlated:signature-slice-resigned")
-                    d = call(jws.detach_content, tok)
-                    if d[0] != "ok" or d[1] != hs + ".." + ss:
-                        bad({"kind": "detach", "ser": "compact"}, "detach_content(%r) = %r" % (tok, d[1]), {"fn": "detach_content", "token": tok})
-                    add("JDetachCompact %s %s" % (c_hex(tok.encode()), J.c_res(d, lambda x: c_hex(x.encode()))),
-                        {"fn": "detach_compact", "what": "detach-correlated", "force": True, "token": tok})
+                            before = copy.deepcopy(val)
+                            dj = call(jws.detach_content, val)
+                            expect = {x: v for x, v in before.items() if x != "payload"}
+                            if dj[0] != "ok" or dj[1] != expect or "payload" in dj[1]:
+                                bad({"kind": "detach", "ser": form}, "detach_content(JSON %s) = %r, expected %r" % (form, dj[1], expect), dict(rp, value=before))
+                            if val != before:
+                                bad({"kind": "detach-alters-input", "ser": form}, "detach_content altered its argument: %r" % (val,), dict(rp, value=before))
+                            if dj[0] == "ok" and isinstance(dj[1], dict):
+                                # no aliasing: mutating the result must not reach the input
+                                for sg in (dj[1].get("signatures") or [dj[1]]):
+                                    if isinstance(sg.get("header"), dict):
+                                        sg["header"]["mutated"] = 1
+                                if val != before:
+                                    bad({"kind": "detach-aliases-input", "ser": form}, "the result of detach_content shares objects with its argument", dict(rp, value=before))
+                                d2 = dict(expect, payload=b64u(pl).decode())
+                                rr = call(jws.deserialize_json, d2, pub, [alg])
+                                rec.take()
+                                if rr[0] != "ok" or rr[1].payload != pl:
+                                    bad({"kind": "detach-restore", "ser": form}, "restoring the detached JSON payload does not verify: %r" % (rr[1],), rp)
+            # payload' = b64d of a slice of the signature of a first (deterministic HMAC) token, re-signed
+            for hs_alg, kn in (("HS256", "oct32"), ("HS384", "oct64")):
+                k = K[kn]
+                t0 = jws.serialize_compact({"alg": hs_alg}, b"first", k, [hs_alg])
+                ss0 = t0.split(".")[2]
+                for i in range(0, len(ss0) - 4, 4):
+                    for ln in (4, 8, 12):
+                        pl = b64u_dec(ss0[i:i + ln].encode())
+                        tok = jws.serialize_compact({"alg": hs_alg}, pl, k, [hs_alg])
+                        rec.take()
+                        hs, ps, ss = tok.split(".")
+                        ctx.note_case(("detach-sig-slice", hs_alg, pl))
+                        note("detach-correlated:signature-slice-resigned")
+                        d = call(jws.detach_content, tok)
+                        if d[0] != "ok" or d[1] != hs + ".." + ss:
+                            bad({"kind": "detach", "ser": "compact"}, "detach_content(%r) = %r" % (tok, d[1]), {"fn": "detach_content", "token": tok})
+                        add("JDetachCompact %s %s" % (c_hex(tok.encode()), J.c_res(d, lambda x: c_hex(x.encode()))),
+                            {"fn": "detach_compact", "what": "detach-correlated", "force": True, "token": tok})
 
-        # ---- key configurations: key_ops / use / alg members on both sides
-        from joserfc.jwk import JWKRegistry, OctKey
-        from joserfc.errors import UnsupportedKeyOperationError
+            # ---- key configurations: key_ops / use / alg members on both sides
+            from joserfc.jwk import JWKRegistry, OctKey
+            from joserfc.errors import UnsupportedKeyOperationError
 
-        def cfg_key(k, private, params):
-            if k.key_type == "oct":
-                return OctKey.import_key(k.raw_value, dict(params, kid=k.kid))
-            return JWKRegistry.import_key(dict(k.as_dict(private=private), **params))
+            def cfg_key(k, private, params):
+                if k.key_type == "oct":
+                    return OctKey.import_key(k.raw_value, dict(params, kid=k.kid))
+                return JWKRegistry.import_key(dict(k.as_dict(private=private), **params))
 
-        for alg in J.ALL_ALGS:
-            kn = J.ALG_KEYS[alg][0]
-            k = K[kn]
-            vk = cfg_key(k, False, {"key_ops": ["verify"], "use": "sig", "alg": alg})
-            for sname, sparams in (("sign-only", {"key_ops": ["sign"], "use": "sig", "alg": alg}),
-                                   ("sign+verify", {"key_ops": ["sign", "verify"], "use": "sig"}),
-                                   ("unrestricted", {"alg": alg})):
-                sk = cfg_key(k, True, sparams)
-                for ser in ("compact", "flat", "gen2", "compact97", "flat97"):
-                    if quick and rng.random() < 0.4 and not (alg.startswith("HS") and sname == "sign-only"):
-                        continue
-                    pl = rng.choice([b"hello", b"a.b", "h\u00e9".encode(), b"urlsafe_1"])
-                    base = {"alg": alg}
-                    if ser.endswith("97"):
-                        base.update({"b64": False, "crit": ["b64"]})
-                    rp = {"fn": "key-config", "alg": alg, "key": kn, "ser": ser, "signer": sname, "payload_hex": pl.hex()}
-                    ctx.note_case(("key-config", alg, sname, ser, pl))
-                    note("key-config:%s:%s" % (sname, ser))
-                    rec.take()
-                    if ser == "compact":
-                        r = call(jws.serialize_compact, dict(base), pl, sk, [alg])
-                        rows, _ = rec.take()
-                        add("JSerCompact %s %s %s %s %s %s" % (J.c_table(rows), J.c_dict(base), c_hex(pl), J.c_keysrc(sk), J.c_algs([alg]),
-                                                             J.c_res(r, lambda t: c_hex(t.encode()))), {"fn": "serialize_compact", "what": "key-config:" + sname, **rp})
-                    elif ser == "compact97":
-                        r = call(r97.serialize_compact, dict(base), pl, sk, [alg])
-                        rows, _ = rec.take()
-                        add("JSerCompact97 %s %s %s %s %s %s %s" % (J.c_table(rows), c_bool(lenient), J.c_dict(base), c_hex(pl), J.c_keysrc(sk), J.c_algs([alg]),
-                                                                   J.c_res(r, lambda t: c_hex(t.encode()))), {"fn": "serialize_compact97", "what": "key-config:" + sname, **rp})
-                    else:
-                        m_ = {"protected": dict(base)}
-                        ms = [copy.deepcopy(m_), {"protected": dict(base, cty="m1")}] if ser == "gen2" else copy.deepcopy(m_)
-                        r = call(r97.serialize_json if ser == "flat97" else jws.serialize_json, ms, pl, sk, [alg])
-                        rows, _ = rec.take()
-                    if r[0] != "ok":
-                        bad({"kind": "key-config-sign", "ser": ser}, "signing with a key whose key_ops is %r failed: %r" % (sparams.get("key_ops"), r[1]), rp)
-                        continue
-                    rec.take()
-                    if ser == "compact":
-                        rv = call(jws.deserialize_compact, r[1], vk, [alg])
-                        rows, _ = rec.take()
-                        add("JDesCompact %s %s %s %s %s" % (J.c_table(rows), c_hex(r[1].encode()), J.c_keysrc(vk), J.c_algs([alg]), J.c_compact_result(rv)),
-                            {"fn": "deserialize_compact", "what": "key-config:verify-only", "force": True, **rp})
-                    elif ser == "compact97":
-                        parg = pl if r[1].split(".")[1] == "" else None
-                        rv = call(r97.deserialize_compact, r[1], vk, parg, [alg])
-                        rows, _ = rec.take()
-                        add("JDesCompact97 %s %s %s %s %s %s" % (J.c_table(rows), c_hex(r[1].encode()), J.c_keysrc(vk), c_opt(parg, c_hex), J.c_algs([alg]),
-                                                                J.c_compact_result(rv)), {"fn": "deserialize_compact97", "what": "key-config:verify-only", "force": True, **rp})
-                    elif ser == "flat97":
-                        rv = call(r97.deserialize_json, copy.deepcopy(r[1]), vk, [alg])
-                        rows, _ = rec.take()
-                        add("JDesJson97 %s %s %s %s %s %s" % (J.c_table(rows), c_bool(fixed), J.c_jval(r[1]), J.c_keysrc(vk), J.c_algs([alg]), J.c_json_result(rv)),
-                            {"fn": "deserialize_json97", "what": "key-config:verify-only", "force": True, **rp})
-                    else:
-                        rv = call(jws.deserialize_json, copy.deepcopy(r[1]), vk, [alg])
-                        rows, _ = rec.take()
-                        add("JDesJson %s %s %s %s %s" % (J.c_table(rows), J.c_jval(r[1]), J.c_keysrc(vk), J.c_algs([alg]), J.c_json_result(rv)),
-                            {"fn": "deserialize_json", "what": "key-config:verify-only", "force": True, **rp})
-                    if rv[0] != "ok" or rv[1].payload != pl:
-                        bad({"kind": "key-config-roundtrip", "ser": ser}, "a JWS (%s, %s) signed with key_ops %r does not verify with the same key material restricted to key_ops ['verify']: %r" % (
-                            alg, ser, sparams.get("key_ops"), rv[1]), rp)
-            # the operations are not interchangeable: verify-only keys do not sign, sign-only keys do not verify
+            for alg in J.ALL_ALGS:
+                kn = J.ALG_KEYS[alg][0]
+                k = K[kn]
+                vk = cfg_key(k, False, {"key_ops": ["verify"], "use": "sig", "alg": alg})
+                for sname, sparams in (("sign-only", {"key_ops": ["sign"], "use": "sig", "alg": alg}),
+                                       ("sign+verify", {"key_ops": ["sign", "verify"], "use": "sig"}),
+                                       ("unrestricted", {"alg": alg})):
+                    sk = cfg_key(k, True, sparams)
+                    for ser in ("compact", "flat", "gen2", "compact97", "flat97"):
+                        if quick and rng.random() < 0.4 and not (alg.startswith("HS") and sname == "sign-only"):
+                            continue
+                        pl = rng.choice([b"hello", b"a.b", "h\u00e9".encode(), b"urlsafe_1"])
+                        base = {"alg": alg}
+                        if ser.endswith("97"):
+                            base.update({"b64": False, "crit": ["b64"]})
+                        rp = {"fn": "key-config", "alg": alg, "key": kn, "ser": ser, "signer": sname, "payload_hex": pl.hex()}
+                        ctx.note_case(("key-config", alg, sname, ser, pl))
+                        note("key-config:%s:%s" % (sname, ser))
+                        rec.take()
+                        if ser == "compact":
+                            r = call(jws.serialize_compact, dict(base), pl, sk, [alg])
+                            rows, _ = rec.take()
+                            add("JSerCompact %s %s %s %s %s %s" % (J.c_table(rows), J.c_dict(base), c_hex(pl), J.c_keysrc(sk), J.c_algs([alg]),
+                                                                 J.c_res(r, lambda t: c_hex(t.encode()))), {"fn": "serialize_compact", "what": "key-config:" + sname, **rp})
+                        elif ser == "compact97":
+                            r = call(r97.serialize_compact, dict(base), pl, sk, [alg])
+                            rows, _ = rec.take()
+                            add("JSerCompact97 %s %s %s %s %s %s %s" % (J.c_table(rows), c_bool(lenient), J.c_dict(base), c_hex(pl), J.c_keysrc(sk), J.c_algs([alg]),
+                                                                       J.c_res(r, lambda t: c_hex(t.encode()))), {"fn": "serialize_compact97", "what": "key-config:" + sname, **rp})
+                        else:
+                            m_ = {"protected": dict(base)}
+                            ms = [copy.deepcopy(m_), {"protected": dict(base, cty="m1")}] if ser == "gen2" else copy.deepcopy(m_)
+                            r = call(r97.serialize_json if ser == "flat97" else jws.serialize_json, ms, pl, sk, [alg])
+                            rows, _ = rec.take()
+                        if r[0] != "ok":
+                            bad({"kind": "key-config-sign", "ser": ser}, "signing with a key whose key_ops is %r failed: %r" % (sparams.get("key_ops"), r[1]), rp)
+                            continue
+                        rec.take()
+                        if ser == "compact":
+                            rv = call(jws.deserialize_compact, r[1], vk, [alg])
+                            rows, _ = rec.take()
+                            add("JDesCompact %s %s %s %s %s" % (J.c_table(rows), c_hex(r[1].encode()), J.c_keysrc(vk), J.c_algs([alg]), J.c_compact_result(rv)),
+                                {"fn": "deserialize_compact", "what": "key-config:verify-only", "force": True, **rp})
+                        elif ser == "compact97":
+                            parg = pl if r[1].split(".")[1] == "" else None
+                            rv = call(r97.deserialize_compact, r[1], vk, parg, [alg])
+                            rows, _ = rec.take()
+                            add("JDesCompact97 %s %s %s %s %s %s" % (J.c_table(rows), c_hex(r[1].encode()), J.c_keysrc(vk), c_opt(parg, c_hex), J.c_algs([alg]),
+                                                                    J.c_compact_result(rv)), {"fn": "deserialize_compact97", "what": "key-config:verify-only", "force": True, **rp})
+                        elif ser == "flat97":
+                            rv = call(r97.deserialize_json, copy.deepcopy(r[1]), vk, [alg])
+                            rows, _ = rec.take()
+                            add("JDesJson97 %s %s %s %s %s %s" % (J.c_table(rows), c_bool(fixed), J.c_jval(r[1]), J.c_keysrc(vk), J.c_algs([alg]), J.c_json_result(rv)),
+                                {"fn": "deserialize_json97", "what": "key-config:verify-only", "force": True, **rp})
+                        else:
+                            rv = call(jws.deserialize_json, copy.deepcopy(r[1]), vk, [alg])
+                            rows, _ = rec.take()
+                            add("JDesJson %s %s %s %s %s" % (J.c_table(rows), J.c_jval(r[1]), J.c_keysrc(vk), J.c_algs([alg]), J.c_json_result(rv)),
+                                {"fn": "deserialize_json", "what": "key-config:verify-only", "force": True, **rp})
+                        if rv[0] != "ok" or rv[1].payload != pl:
+                            bad({"kind": "key-config-roundtrip", "ser": ser}, "a JWS (%s, %s) signed with key_ops %r does not verify with the same key material restricted to key_ops ['verify']: %r" % (
+                                alg, ser, sparams.get("key_ops"), rv[1]), rp)
+                # the operations are not interchangeable: verify-only keys do not sign, sign-only keys do not verify
+                rec.take()
+                r = call(jws.serialize_compact, {"alg": alg}, b"x", vk if k.key_type == "oct" else cfg_key(k, True, {"key_ops": ["verify"]}), [alg])
+                rows, _ = rec.take()
+                if r[0] == "ok" or not isinstance(r[1], UnsupportedKeyOperationError):
+                    bad({"kind": "key-config-verify-only-signs"}, "a key restricted to key_ops ['verify'] signed: %r" % (r[1],), {"fn": "key-config", "alg": alg})
+                tok = jws.serialize_compact({"alg": alg}, b"x", k, [alg])
+                rec.take()
+                so = cfg_key(k, True, {"key_ops": ["sign"]})
+                r = call(jws.deserialize_compact, tok, so, [alg])
+                rows, _ = rec.take()
+                add("JDesCompact %s %s %s %s %s" % (J.c_table(rows), c_hex(tok.encode()), J.c_keysrc(so), J.c_algs([alg]), J.c_compact_result(r)),
+                    {"fn": "deserialize_compact", "what": "key-config:sign-only-verifies", "force": True, "alg": alg})
+                if r[0] == "ok" or not isinstance(r[1], UnsupportedKeyOperationError):
+                    bad({"kind": "key-config-sign-only-verifies"}, "a key restricted to key_ops ['sign'] verified: %r" % (r[1],), {"fn": "key-config", "alg": alg})
+
+            # ---- callables that perform nested library calls, interleaved object histories:
+            # every token must still verify to its own payload
+            pool = []
+            for alg, kn in (("HS256", "oct32"), ("ES256", "p256"), ("EdDSA", "ed25519"), ("RS256", "rsa"), ("HS512", "oct64")):
+                for pl in (b"payload-of-" + alg.encode(), b"", b"a.b.c"):
+                    tok = jws.serialize_compact({"alg": alg, "kid": kn}, pl, K[kn], [alg])
+                    val = jws.serialize_json({"protected": {"alg": alg}, "header": {"kid": kn}}, pl, K[kn], [alg])
+                    pool.append((tok, val, alg, kn, J.pubkey_of(K[kn]), pl))
             rec.take()
-            r = call(jws.serialize_compact, {"alg": alg}, b"x", vk if k.key_type == "oct" else cfg_key(k, True, {"key_ops": ["verify"]}), [alg])
-            rows, _ = rec.take()
-            if r[0] == "ok" or not isinstance(r[1], UnsupportedKeyOperationError):
-                bad({"kind": "key-config-verify-only-signs"}, "a key restricted to key_ops ['verify'] signed: %r" % (r[1],), {"fn": "key-config", "alg": alg})
-            tok = jws.serialize_compact({"alg": alg}, b"x", k, [alg])
-            rec.take()
-            so = cfg_key(k, True, {"key_ops": ["sign"]})
-            r = call(jws.deserialize_compact, tok, so, [alg])
-            rows, _ = rec.take()
-            add("JDesCompact %s %s %s %s %s" % (J.c_table(rows), c_hex(tok.encode()), J.c_keysrc(so), J.c_algs([alg]), J.c_compact_result(r)),
-                {"fn": "deserialize_compact", "what": "key-config:sign-only-verifies", "force": True, "alg": alg})
-            if r[0] == "ok" or not isinstance(r[1], UnsupportedKeyOperationError):
-                bad({"kind": "key-config-sign-only-verifies"}, "a key restricted to key_ops ['sign'] verified: %r" % (r[1],), {"fn": "key-config", "alg": alg})
+            for ia, A in enumerate(pool):
+                for ib, B in enumerate(pool):
+                    if ia == ib or (quick and (ia * 7 + ib) % 4):
+                        continue
+                    C = pool[(ia + ib) % len(pool)]
+                    inner = {}
 
-        # ---- callables that perform nested library calls, interleaved object histories:
-        # every token must still verify to its own payload
-        pool = []
-        for alg, kn in (("HS256", "oct32"), ("ES256", "p256"), ("EdDSA", "ed25519"), ("RS256", "rsa"), ("HS512", "oct64")):
-            for pl in (b"payload-of-" + alg.encode(), b"", b"a.b.c"):
-                tok = jws.serialize_compact({"alg": alg, "kid": kn}, pl, K[kn], [alg])
-                val = jws.serialize_json({"protected": {"alg": alg}, "header": {"kid": kn}}, pl, K[kn], [alg])
-                pool.append((tok, val, alg, kn, J.pubkey_of(K[kn]), pl))
-        rec.take()
-        for ia, A in enumerate(pool):
-            for ib, B in enumerate(pool):
-                if ia == ib or (quick and (ia * 7 + ib) % 4):
-                    continue
-                C = pool[(ia + ib) % len(pool)]
-                inner = {}
+                    def keyf(obj, A=A, B=B, C=C, inner=inner):
+                        inner["b"] = call(jws.deserialize_compact, B[0], B[4], [B[2]])
+                        inner["c"] = call(jws.extract_compact, C[0].encode())
+                        inner["s"] = call(jws.serialize_compact, {"alg": "HS256"}, b"inner", K["oct32"], ["HS256"])
+                        inner["j"] = call(jws.deserialize_json, copy.deepcopy(B[1]), B[4], [B[2]])
+                        return A[4]
+                    ctx.note_case(("nested", ia, ib))
+                    note("nested-callable")
+                    rp = {"fn": "nested-callable", "tokA": A[0], "tokB": B[0], "algA": A[2], "algB": B[2]}
+                    rec.take()
+                    r = call(jws.deserialize_compact, A[0], keyf, [A[2]])
+                    rows, _ = rec.take()
+                    add("JDesCompact %s %s %s %s %s" % (J.c_table(rows), c_hex(A[0].encode()), J.c_keysrc(A[4]), J.c_algs([A[2]]), J.c_compact_result(r)),
+                        {"fn": "deserialize_compact", "what": "nested-callable", "force": (ia + ib) % 3 == 0, **rp})
+                    if r[0] != "ok" or r[1].payload != A[5] or r[1].protected != {"alg": A[2], "kid": A[3]}:
+                        bad({"kind": "nested-callable", "ser": "compact"}, "deserialize_compact(A) with a key callable that parses other tokens: %r (expected payload %r)" % (
+                            r[1] if r[0] != "ok" else r[1].payload, A[5]), rp)
+                    if inner.get("b", ("err", None))[0] != "ok" or inner["b"][1].payload != B[5] or inner["j"][0] != "ok" or inner["j"][1].payload != B[5]:
+                        bad({"kind": "nested-callable-inner"}, "the nested verification of B inside the callable failed: %r" % (inner.get("b"),), rp)
+                    rj = call(jws.deserialize_json, copy.deepcopy(A[1]), keyf, [A[2]])
+                    rec.take()
+                    if rj[0] != "ok" or rj[1].payload != A[5]:
+                        bad({"kind": "nested-callable", "ser": "flat"}, "deserialize_json(A) with a key callable that parses other tokens: %r" % (rj[1],), rp)
 
-                def keyf(obj, A=A, B=B, C=C, inner=inner):
-                    inner["b"] = call(jws.deserialize_compact, B[0], B[4], [B[2]])
-                    inner["c"] = call(jws.extract_compact, C[0].encode())
-                    inner["s"] = call(jws.serialize_compact, {"alg": "HS256"}, b"inner", K["oct32"], ["HS256"])
-                    inner["j"] = call(jws.deserialize_json, copy.deepcopy(B[1]), B[4], [B[2]])
-                    return A[4]
-                ctx.note_case(("nested", ia, ib))
-                note("nested-callable")
-                rp = {"fn": "nested-callable", "tokA": A[0], "tokB": B[0], "algA": A[2], "algB": B[2]}
-                rec.take()
-                r = call(jws.deserialize_compact, A[0], keyf, [A[2]])
-                rows, _ = rec.take()
-                add("JDesCompact %s %s %s %s %s" % (J.c_table(rows), c_hex(A[0].encode()), J.c_keysrc(A[4]), J.c_algs([A[2]]), J.c_compact_result(r)),
-                    {"fn": "deserialize_compact", "what": "nested-callable", "force": (ia + ib) % 3 == 0, **rp})
-                if r[0] != "ok" or r[1].payload != A[5] or r[1].protected != {"alg": A[2], "kid": A[3]}:
-                    bad({"kind": "nested-callable", "ser": "compact"}, "deserialize_compact(A) with a key callable that parses other tokens: %r (expected payload %r)" % (
-                        r[1] if r[0] != "ok" else r[1].payload, A[5]), rp)
-                if inner.get("b", ("err", None))[0] != "ok" or inner["b"][1].payload != B[5] or inner["j"][0] != "ok" or inner["j"][1].payload != B[5]:
-                    bad({"kind": "nested-callable-inner"}, "the nested verification of B inside the callable failed: %r" % (inner.get("b"),), rp)
-                rj = call(jws.deserialize_json, copy.deepcopy(A[1]), keyf, [A[2]])
-                rec.take()
-                if rj[0] != "ok" or rj[1].payload != A[5]:
-                    bad({"kind": "nested-callable", "ser": "flat"}, "deserialize_json(A) with a key callable that parses other tokens: %r" % (rj[1],), rp)
+                    # signing with a callable that verifies / signs other tokens
+                    def skeyf(obj, A=A, B=B):
+                        call(jws.deserialize_compact, B[0], B[4], [B[2]])
+                        call(jws.serialize_compact, {"alg": B[2]}, b"other", K[B[3]], [B[2]])
+                        return K[A[3]]
+                    t2 = call(jws.serialize_compact, {"alg": A[2]}, A[5], skeyf, [A[2]])
+                    rec.take()
+                    r2 = call(jws.deserialize_compact, t2[1], A[4], [A[2]]) if t2[0] == "ok" else t2
+                    rec.take()
+                    if r2[0] != "ok" or r2[1].payload != A[5]:
+                        bad({"kind": "nested-callable-sign"}, "serialize_compact with a key callable that handles other tokens, then verify: %r" % (r2[1],), rp)
+                    # interleaved histories: extract A, extract B, validate A, validate B
+                    ea = call(jws.extract_compact, A[0].encode())
+                    eb = call(jws.extract_compact, B[0].encode())
+                    va = call(jws.validate_compact, ea[1], A[4], [A[2]]) if ea[0] == "ok" else ea
+                    vb = call(jws.validate_compact, eb[1], B[4], [B[2]]) if eb[0] == "ok" else eb
+                    rec.take()
+                    note("interleaved-history")
+                    okseg = ea[0] == "ok" and [ea[1].segments.get(x) for x in ("header", "payload", "signature")] == A[0].encode().split(b".")
+                    if va != ("ok", True) or vb != ("ok", True) or ea[1].payload != A[5] or eb[1].payload != B[5] or not okseg:
+                        bad({"kind": "interleaved-history"}, "extract A, extract B, validate A, validate B: %r / %r; payloads %r / %r; A's segments intact: %s" % (
+                            va[1], vb[1], getattr(ea[1], "payload", None), getattr(eb[1], "payload", None), okseg), rp)
 
-                # signing with a callable that verifies / signs other tokens
-                def skeyf(obj, A=A, B=B):
-                    call(jws.deserialize_compact, B[0], B[4], [B[2]])
-                    call(jws.serialize_compact, {"alg": B[2]}, b"other", K[B[3]], [B[2]])
-                    return K[A[3]]
-                t2 = call(jws.serialize_compact, {"alg": A[2]}, A[5], skeyf, [A[2]])
-                rec.take()
-                r2 = call(jws.deserialize_compact, t2[1], A[4], [A[2]]) if t2[0] == "ok" else t2
-                rec.take()
-                if r2[0] != "ok" or r2[1].payload != A[5]:
-                    bad({"kind": "nested-callable-sign"}, "serialize_compact with a key callable that handles other tokens, then verify: %r" % (r2[1],), rp)
-                # interleaved histories: extract A, extract B, validate A, validate B
-                ea = call(jws.extract_compact, A[0].encode())
-                eb = call(jws.extract_compact, B[0].encode())
-                va = call(jws.validate_compact, ea[1], A[4], [A[2]]) if ea[0] == "ok" else ea
-                vb = call(jws.validate_compact, eb[1], B[4], [B[2]]) if eb[0] == "ok" else eb
-                rec.take()
-                note("interleaved-history")
-                okseg = ea[0] == "ok" and [ea[1].segments.get(x) for x in ("header", "payload", "signature")] == A[0].encode().split(b".")
-                if va != ("ok", True) or vb != ("ok", True) or ea[1].payload != A[5] or eb[1].payload != B[5] or not okseg:
-                    bad({"kind": "interleaved-history"}, "extract A, extract B, validate A, validate B: %r / %r; payloads %r / %r; A's segments intact: %s" % (
-                        va[1], vb[1], getattr(ea[1], "payload", None), getattr(eb[1], "payload", None), okseg), rp)
-
-        # ---- forced ECDSA boundary values of (r, s) through ECAlgModel.sign / verify
-        for alg, crv, bits in (("ES256", "P-256", 256), ("ES384", "P-384", 384), ("ES512", "P-521", 521), ("ES256K", "secp256k1", 256)):
-            inst = jws.JWSRegistry.algorithms[alg]
-            L = (bits + 7) // 8
-            vals = [0, 1, 255, 256, 2 ** (8 * (L - 1)) - 1, 2 ** (8 * (L - 1)), 2 ** (8 * (L - 2)), 2 ** bits - 1, 2 ** (8 * L) - 1,
-                    2 ** (bits - 1), 65537]
-            vals += [rng.getrandbits(rng.choice([8, 64, 8 * (L - 1), 8 * (L - 3), bits])) for _ in range(ctx.scale(6, 60))]
-            pairs = [(a, b) for a in vals[:11] for b in (vals[:11] if not quick else rng.sample(vals, 3))] + list(zip(vals[11:], reversed(vals[11:])))
-            for (r_, s_) in pairs:
-                fk = FakeECKey(crv, bits, r_, s_)
-                ctx.note_case(("ec-rs", alg, r_, s_))
-                note("ecdsa-forced-rs")
-                rec.take()
-                rs = call(inst.sign, b"m", fk)
-                rows, _ = rec.take()
-                want = r_.to_bytes(L, "big") + s_.to_bytes(L, "big")
-                if rs != ("ok", want):
-                    bad({"kind": "ecdsa-encode"}, "%s.sign with (r, s) = (%s, %s) gave %r, expected the %d-octet R||S" % (alg, hex(r_)[:20], hex(s_)[:20], rs[1], 2 * L),
-                        {"fn": "ec.sign", "alg": alg, "r": str(r_), "s": str(s_)})
-                add("JAlgSign %s %s %s %s %s" % (J.c_table(rows), c_str(alg), J.c_key(fk), c_hex(b"m"), J.c_res(rs, c_hex)),
-                    {"fn": "ec.sign", "what": alg, "r": str(r_), "s": str(s_)})
-                rec.take()
-                rv = call(inst.verify, b"m", want, fk)
-                rows, _ = rec.take()
-                if rv != ("ok", True) or fk.op.seen != (r_, s_):
-                    bad({"kind": "ecdsa-decode"}, "%s.verify of R||S for (%s, %s): result %r, primitive saw %r" % (alg, hex(r_)[:20], hex(s_)[:20], rv[1], fk.op.seen),
-                        {"fn": "ec.verify", "alg": alg, "r": str(r_), "s": str(s_)})
-                add("JAlgVerify %s %s %s %s %s %s" % (J.c_table(rows), c_str(alg), J.c_key(fk), c_hex(b"m"), c_hex(want), J.c_res(rv, c_bool)),
-                    {"fn": "ec.verify", "what": alg, "r": str(r_), "s": str(s_)})
+            # ---- forced ECDSA boundary values of (r, s) through ECAlgModel.sign / verify
+            for alg, crv, bits in (("ES256", "P-256", 256), ("ES384", "P-384", 384), ("ES512", "P-521", 521), ("ES256K", "secp256k1", 256)):
+                inst = jws.JWSRegistry.algorithms[alg]
+                L = (bits + 7) // 8
+                vals = [0, 1, 255, 256, 2 ** (8 * (L - 1)) - 1, 2 ** (8 * (L - 1)), 2 ** (8 * (L - 2)), 2 ** bits - 1, 2 ** (8 * L) - 1,
+                        2 ** (bits - 1), 65537]
+                vals += [rng.getrandbits(rng.choice([8, 64, 8 * (L - 1), 8 * (L - 3), bits])) for _ in range(ctx.scale(6, 60))]
+                pairs = [(a, b) for a in vals[:11] for b in (vals[:11] if not quick else rng.sample(vals, 3))] + list(zip(vals[11:], reversed(vals[11:])))
+                for (r_, s_) in pairs:
+                    fk = FakeECKey(crv, bits, r_, s_)
+                    ctx.note_case(("ec-rs", alg, r_, s_))
+                    note("ecdsa-forced-rs")
+                    rec.take()
+                    rs = call(inst.sign, b"m", fk)
+                    rows, _ = rec.take()
+                    want = r_.to_bytes(L, "big") + s_.to_bytes(L, "big")
+                    if rs != ("ok", want):
+                        bad({"kind": "ecdsa-encode"}, "%s.sign with (r, s) = (%s, %s) gave %r, expected the %d-octet R||S" % (alg, hex(r_)[:20], hex(s_)[:20], rs[1], 2 * L),
+                            {"fn": "ec.sign", "alg": alg, "r": str(r_), "s": str(s_)})
+                    add("JAlgSign %s %s %s %s %s" % (J.c_table(rows), c_str(alg), J.c_key(fk), c_hex(b"m"), J.c_res(rs, c_hex)),
+                        {"fn": "ec.sign", "what": alg, "r": str(r_), "s": str(s_)})
+                    rec.take()
+                    rv = call(inst.verify, b"m", want, fk)
+                    rows, _ = rec.take()
+                    if rv != ("ok", True) or fk.op.seen != (r_, s_):
+                        bad({"kind": "ecdsa-decode"}, "%s.verify of R||S for (%s, %s): result %r, primitive saw %r" % (alg, hex(r_)[:20], hex(s_)[:20], rv[1], fk.op.seen),
+                            {"fn": "ec.verify", "alg": alg, "r": str(r_), "s": str(s_)})
+                    add("JAlgVerify %s %s %s %s %s %s" % (J.c_table(rows), c_str(alg), J.c_key(fk), c_hex(b"m"), c_hex(want), J.c_res(rv, c_bool)),
+                        {"fn": "ec.verify", "what": alg, "r": str(r_), "s": str(s_)})
+        except Exception as e:   # a library call that must succeed raised: a finding, not a harness crash
+            import traceback as _tb
+            bad({"kind": "unexpected-exception"}, "a library call of the round-trip run raised %r" % (e,), {"fn": "unexpected-exception", "traceback": _tb.format_exc()[-1500:]})
 
     # stratified selection of the Coq cases
     groups = {}
